@@ -86,6 +86,15 @@ def dist_tol(dref, omr):
     return 1e-7 + np.maximum(1e-11 / omr, short)
 
 
+def unresolved(dref, omr):
+    """True where the pair is 'nearly coincident' for float64 arithmetic on
+    the hyperboloid: cosh d - 1 is below the rounding level 4e-13/(1-r_max)
+    of the Minkowski product (d <= sqrt(2E))."""
+    dref = np.asarray(dref, dtype=float)
+    omr = np.maximum(np.asarray(omr, dtype=float), 1e-300)
+    return dref <= np.sqrt(8e-13 / omr)
+
+
 def coord_tol(omr):
     """tolerance for a closed-form metric evaluated in a stable form on
     returned coordinates (no square-root rule needed)."""
@@ -210,31 +219,30 @@ def rand_ideal(rng, n, shape, cone=1e-3):
     shape = tuple(shape)
     if n == 1:
         return -np.ones(shape + (1,))
-    for _ in range(100):
-        u = rh.rand_sphere(rng, n, shape)
-        e = np.zeros(n)
-        e[0] = 1.0
-        bad = np.linalg.norm(u - e, axis=-1) < 3 * cone
-        if not np.any(bad):
-            return u
-        u[bad] = -u[bad]
-        return u
-    raise RuntimeError("rand_ideal")
+    u = rh.rand_sphere(rng, n, shape)
+    e = np.zeros(n)
+    e[0] = 1.0
+    bad = np.linalg.norm(u - e, axis=-1) < 3 * cone
+    u[bad] = -u[bad]
+    return u
 
 
 def rand_halfspace(rng, n, shape, cls):
     """half-space coordinates (x_1..x_{n-1}, height) of a class.
     bulk: |x| ~ N(0,1), height log-uniform [0.05, 20];
-    low: height log-uniform [1e-6,1e-2]; far: |x| ~ 1e3, height ~ 1..1e3."""
+    low: |x| ~ N(0,1)/2, height log-uniform [3e-4,1e-2];
+    far: |x| ~ 30 N(0,1), height log-uniform [3,100]
+    (all within 1 - Klein radius >~ 1e-8)."""
     shape = tuple(shape)
     x = rng.normal(size=shape + (n,))
     if cls == "bulk":
         h = np.exp(rng.uniform(np.log(0.05), np.log(20.0), size=shape))
     elif cls == "low":
-        h = np.exp(rng.uniform(np.log(1e-6), np.log(1e-2), size=shape))
+        x = x * 0.5
+        h = np.exp(rng.uniform(np.log(3e-4), np.log(1e-2), size=shape))
     elif cls == "far":
-        x = x * 1e3
-        h = np.exp(rng.uniform(0.0, np.log(1e3), size=shape))
+        x = x * 30.0
+        h = np.exp(rng.uniform(np.log(3.0), np.log(100.0), size=shape))
     else:
         raise ValueError(cls)
     x[..., -1] = h
